@@ -1382,7 +1382,7 @@ def scan_ast_tables(ast):
         if isinstance(x, list):
             for y in x:
                 st(y)
-        elif isinstance(x, L.Statement):
+        elif type(x) is L.Statement:
             st(x.expr)
         elif isinstance(x, (L.Assign, L.AssignAdd)):
             ex(x.lhs)
